@@ -457,6 +457,30 @@ fn primed_pairs(acc: &mut Acc) {
             jobs.push((prime.to_string(), "-true".to_string(), blank.to_string()));
         }
     }
+    // worn threads: 600 refused texts (errors inside a group, unclosed groups) before the pair
+    let mut worn: Vec<(Vec<String>, String)> = vec![];
+    for bad in ["( )", "( -name a -o )", "( ( -name a )", "( ! )", "( -name a , )", "-name a -o ( -nosuch )", "( -uid x )"] {
+        worn.push((vec![bad.to_string(); 600], format!("600 x {bad:?}")));
+    }
+    worn.push((vec![format!("{}-name a", "( ".repeat(60)); 30], "30 x 60 unclosed groups".into()));
+    worn.push((vec![format!("{}-name a{}", "( ".repeat(64), " )".repeat(64)); 100], "100 x 64 nested groups".into()));
+    for (steps, told) in worn {
+        for (canon, variant) in [("-name a", "( -name a )"), ("-name a -o -name b", "(-name a) -or ((-name b))"), ("! -name a", "! ( -name a )")] {
+            acc.transitions += steps.len() as u64 + 2;
+            acc.states += 2;
+            let mut st = steps.clone();
+            st.push(variant.to_string());
+            let primed = fresh(st);
+            let alone = fresh(vec![canon.to_string()]);
+            if primed != alone {
+                acc.violate(Violation::new(
+                    "C06:after-many-refused-texts:differs",
+                    format!("{variant:?} parsed after {told} on the same thread gives {:?}; its equivalent spelling {canon:?} parsed on a fresh thread gives {:?}", primed.as_ref().map(|x| x.1.show()), alone.as_ref().map(|x| x.1.show())),
+                    json!({"kind": "worn", "told": told, "first": variant, "second": canon}),
+                ));
+            }
+        }
+    }
     for (prime, canon, variant) in jobs {
         acc.transitions += 2;
         acc.states += 2;
@@ -473,6 +497,68 @@ fn primed_pairs(acc: &mut Acc) {
             }
         }
     }
+}
+
+/// Option words may be parenthesised and repeated with different values; whether a pair of
+/// parentheses around an option word changes the tree depends on where it stands, so these
+/// spellings are judged one by one against the text-level reference instead of against a
+/// canonical spelling: every sentence of <= 5 symbols over {(, ), -o, -threads 2, -threads 4,
+/// -depth, -name x}, as written, with touching parentheses, and with each primary parenthesised.
+fn option_spellings() -> Acc {
+    const A: [&str; 7] = ["(", ")", "-o", "-threads 2", "-threads 4", "-depth", "-name x"];
+    let mut seqs: Vec<Vec<&str>> = vec![];
+    for len in 1..=5u32 {
+        for mut idx in 0..7usize.pow(len) {
+            let mut s = vec![];
+            for _ in 0..len {
+                s.push(A[idx % 7]);
+                idx /= 7;
+            }
+            let toks: Vec<Tok> = s
+                .iter()
+                .map(|w| match *w {
+                    "(" => Tok::LParen,
+                    ")" => Tok::RParen,
+                    "-o" => Tok::Or,
+                    _ => Tok::Prim(Expr::Test(Test::True)),
+                })
+                .collect();
+            if grammar::parse(&toks).is_some() {
+                seqs.push(s);
+            }
+        }
+    }
+    speclib::report::par_items(&seqs, |s, acc| {
+        let plain = s.join(" ");
+        let mut variants = vec![plain.clone(), plain.replace("( ", "(").replace(" )", ")")];
+        for i in 0..s.len() {
+            if s[i].starts_with('-') && s[i] != "-o" {
+                let mut v: Vec<String> = s.iter().map(|w| w.to_string()).collect();
+                v[i] = format!("( {} )", s[i]);
+                variants.push(v.join(" "));
+                v[i] = format!("(({}))", s[i]);
+                variants.push(v.join(" "));
+            }
+        }
+        for v in variants {
+            acc.states += 1;
+            acc.transitions += 1;
+            acc.validated += 1;
+            acc.count("option_spellings", 1);
+            use crate::textcmp::Verdict as V;
+            let problem = match crate::textcmp::compare(&v) {
+                V::AgreeAccept(_) | V::AgreeReject(..) | V::Skip(_) => None,
+                V::Panic(p) => Some(("panic", p)),
+                V::AcceptsRejected { tree, .. } => Some(("accepted", format!("accepted as {} but the reference rejects it", tree.show()))),
+                V::RejectsAccepted { err, want } => Some(("rejected", format!("rejected ({err}); the reference reads {}", want.show()))),
+                V::WrongTree { got, want } => Some(("tree-differs", format!("tree {}; the reference reads {}", got.show(), want.show()))),
+                V::WrongOptions { got, want } => Some(("options-differ", format!("options {}; the reference reads {want:?} (the last option of a kind wins, wherever it stands)", got.dbg))),
+            };
+            if let Some((k, d)) = problem {
+                acc.violate(Violation::new(format!("C06:option-word-spelling:{k}"), format!("{v:?}: {d}"), json!({"kind": "option-spelling", "input": v})));
+            }
+        }
+    })
 }
 
 fn blank_inputs(acc: &mut Acc) {
@@ -499,6 +585,7 @@ pub fn run(ctx: &Ctx) -> i32 {
     long_forms(&mut b);
     primed_pairs(&mut b);
     acc = acc.merge(b);
+    acc = acc.merge(option_spellings());
     let mut extra = serde_json::Map::new();
     extra.insert("base_expressions".into(), json!(bs.len()));
     finish(
@@ -508,7 +595,7 @@ pub fn run(ctx: &Ctx) -> i32 {
             level: "model_checking",
             exhaustive: true,
             rule: "state = (base sentence, set of spelling deviations); deviation-bounded exploration: 0, 1 and 2 simultaneous departures from the canonical spelling at every site with every value, plus all sites of one kind at once; distinct = distinct (options, tree) results".into(),
-            bound: format!("every grammar sentence of <= {n} symbols over 15 symbols (5 primaries, the option words -depth and -threads 3, so options-only and option-led inputs occur, and two name tests whose value contains the other quote character); deviation bound 2; all 341 blank-only inputs of length 0..4; chains of 8..257 operands (every size in the range) with every operand parenthesised / every gap widened / every operator replaced by its synonym / every value quoted; 96 (canonical, variant) pairs judged on a fresh thread right after parsing a text that differs only inside a quoted value"),
+            bound: format!("every grammar sentence of <= {n} symbols over 15 symbols (5 primaries, the option words -depth and -threads 3, so options-only and option-led inputs occur, and two name tests whose value contains the other quote character); deviation bound 2; all 341 blank-only inputs of length 0..4; chains of 8..257 operands (every size in the range) with every operand parenthesised / every gap widened / every operator replaced by its synonym / every value quoted; 96 (canonical, variant) pairs judged on a fresh thread right after parsing a text that differs only inside a quoted value, and after 600 refused texts of nine kinds; every sentence of <= 5 symbols over (, ), -o, -threads 2, -threads 4, -depth, -name x with each primary (option words included) parenthesised, against the text-level reference"),
             assumptions: vec![
                 "insignificant spelling = blanks (space, tab, CR, LF) between words and at the ends, -a/-and/juxtaposition, -o/-or, redundant parentheses (spaced or touching their operand), quoting style of string-class arguments".into(),
                 "quoting of numeric arguments is unspecified and never varied".into(),
@@ -522,7 +609,10 @@ pub fn replay(w: &Value) -> Vec<Violation> {
     let mut acc = Acc::new();
     let kinds: Vec<String> = w["deviations"].as_array().map(|a| a.iter().filter_map(|x| x.as_str().map(String::from)).collect()).unwrap_or_default();
     let ks: Vec<&str> = kinds.iter().map(|s| s.as_str()).collect();
-    if w["kind"] == "primed" {
+    if w["kind"] == "option-spelling" {
+        return option_spellings().violations.into_values().map(|(v, _)| v).collect();
+    }
+    if w["kind"] == "primed" || w["kind"] == "worn" {
         primed_pairs(&mut acc);
         return acc.violations.into_values().map(|(v, _)| v).collect();
     }
